@@ -252,6 +252,7 @@ fn eval_inner(target: &str, input: &str) -> Option<String> {
         "default_ns" => c10_default_ns_witness(),
         "qname_default_ns" => c09_qname_default_ns(),
         "fixed_doc" => c20_fixed_doc(input),
+        "missing_prefixes" => c10_missing_prefixes(input),
         "html_tree" => htmltree::check(input),
         "nav_axes" => navaxes::check(input),
         "id_tables" => c08_id_tables(input),
@@ -319,6 +320,17 @@ fn inputs(target: &str, large: bool) -> Vec<String> {
             v
         }
         "ns_layout" => bounded::ns_layouts(),
+        "missing_prefixes" => {
+            let decls = ["", "0", "1", "p", "01", "0p"];
+            let steps = ['x', 'y', 'z', 'a', 'v', 'c', 'e'];
+            let mut seqs: Vec<String> = vec![String::new()];
+            let mut frontier = seqs.clone();
+            for _ in 0..(if large { 6 } else { 5 }) { let mut next = Vec::new(); for s in &frontier { for k in steps { next.push(format!("{}{}", s, k)); } } seqs.extend(next.iter().cloned()); frontier = next; }
+            seqs.retain(|s| s.ends_with('c') || s.ends_with('e'));
+            let mut v = Vec::new();
+            for a in decls { for m in decls { for s in &seqs { v.push(format!("{}|{}|{}", a, m, s)); } } }
+            v
+        }
         "html_tree" => htmltree::inputs(large),
         "nav_axes" => navaxes::inputs(),
         "id_tables" => { let mut v = Vec::new(); for n in [1usize, 2, 7, 20, 41, 64, 150] { for stride in [1usize, 3, 7] { for via in ["api", "parse"] { v.push(format!("{} {} {}", n, stride, via)); } } } if large { v.push("700 11 api".into()); v.push("700 13 parse".into()); } v }
@@ -1794,6 +1806,60 @@ fn c09_qname_default_ns() -> Option<String> {
         Ok(q) if !q.contains(':') => Some(format!("full_name of the no-namespace element b below xmlns=\"u\" is {:?}; an element name without prefix resolves to the default namespace u there", q)),
         _ => None,
     }
+}
+
+// (C10) create_missing_prefixes repairs a tree whose names lost their declarations, however often it is repeated
+#[allow(dead_code)]
+fn c10_missing_prefixes(input: &str) -> Option<String> {
+    // input: "<decl on a>|<decl on m>|<steps>": decl letters: 0 = xmlns:n0="urn:A", 1 = xmlns:n1="urn:A", p = xmlns:p="urn:A", d = xmlns="urn:A";
+    // steps: x / y / z = append a new element in urn:X / urn:Y / urn:Z under m; a = attribute in urn:W on m; c = create_missing_prefixes(root);
+    // e = create_missing_prefixes(m); v = move the first child of m (an element in urn:A using the declarations above) under a fresh element
+    let f: Vec<&str> = input.split('|').collect();
+    if f.len() != 3 { return None; }
+    let decl = |d: &str| -> String { d.chars().map(|c| match c { '0' => " xmlns:n0=\"urn:A\"", '1' => " xmlns:n1=\"urn:A\"", 'p' => " xmlns:p=\"urn:A\"", 'd' => " xmlns=\"urn:A\"", _ => "" }).collect() };
+    let has_a = f[0].chars().chain(f[1].chars()).any(|c| "01pd".contains(c));
+    let mut xot = Xot::new();
+    let ua = xot.add_namespace("urn:A");
+    let doc = format!("<r{}><m{}/></r>", decl(f[0]), decl(f[1]));
+    // r and m are in no namespace unless the default namespace is declared: keep them in no namespace by construction
+    if f[0].contains('d') || f[1].contains('d') { return None; }
+    let root = xot.parse(&doc).ok()?;
+    let r = xot.document_element(root).ok()?;
+    let m = xot.first_child(r)?;
+    if has_a { let n = xot.add_name_ns("k", ua); let e = xot.new_element(n); xot.append(m, e).ok()?; }
+    let mut counter = 0;
+    let mut done = String::new();
+    for st in f[2].chars() {
+        counter += 1;
+        done.push(st);
+        match st {
+            'x' | 'y' | 'z' => { let u = xot.add_namespace(&format!("urn:{}", st.to_ascii_uppercase())); let n = xot.add_name_ns(&format!("e{}", counter), u); let e = xot.new_element(n); xot.append(m, e).ok()?; }
+            'a' => { let u = xot.add_namespace("urn:W"); let n = xot.add_name_ns(&format!("at{}", counter), u); xot.attributes_mut(m).insert(n, "v".to_string()); }
+            'v' => { if let Some(k) = xot.first_child(m) { let n = xot.add_name("fresh"); let e = xot.new_element(n); xot.append(r, e).ok()?; xot.append(e, k).ok()?; } }
+            'c' | 'e' => {
+                let target = if st == 'c' { root } else { m };
+                let names = |xot: &Xot| -> Vec<String> { xot.descendants(root).filter(|n| xot.is_element(*n)).map(|n| { let (l, u) = xot.name_ns_str(xot.element(n).unwrap().name());
+                    let mut at: Vec<String> = xot.attributes(n).iter().map(|(k, v)| { let (l, u) = xot.name_ns_str(k); format!("{{{}}}{}={}", u, l, v) }).collect(); at.sort();
+                    format!("{{{}}}{}[{}]", u, l, at.join(",")) }).collect() };
+                let before = names(&xot);
+                let bindings_before: Vec<Vec<(String, String)>> = xot.descendants(root).filter(|n| xot.is_element(*n)).map(|n| xot.namespaces(n).iter().map(|(p, u)| (xot.prefix_str(p).to_string(), xot.namespace_str(*u).to_string())).collect()).collect();
+                let res = std::panic::catch_unwind(std::panic::AssertUnwindSafe(|| xot.create_missing_prefixes(target)));
+                match res { Err(_) => return Some(format!("{} after {:?}: create_missing_prefixes panics", doc, done)), Ok(Err(e)) => return Some(format!("{} after {:?}: create_missing_prefixes fails: {:?}", doc, done, e)), Ok(Ok(())) => {} }
+                if names(&xot) != before { return Some(format!("{} after {:?}: an expanded name or attribute changed", doc, done)); }
+                // no binding that was there has been overridden
+                let bindings_after: Vec<Vec<(String, String)>> = xot.descendants(root).filter(|n| xot.is_element(*n)).map(|n| xot.namespaces(n).iter().map(|(p, u)| (xot.prefix_str(p).to_string(), xot.namespace_str(*u).to_string())).collect()).collect();
+                for (b, a) in bindings_before.iter().zip(bindings_after.iter()) { for (p, u) in b { if !a.contains(&(p.clone(), u.clone())) { return Some(format!("{} after {:?}: the binding {}={} has been overridden or removed", doc, done, p, u)); } } }
+                // the repaired (sub)tree serialises and reparses deep-equal
+                let s = match xot.to_string(target) { Ok(s) => s, Err(e) => return Some(format!("{} after {:?}: serialisation still fails after the repair: {:?}", doc, done, e)) };
+                let back = match xot.parse(&s) { Ok(b) => b, Err(e) => return Some(format!("{} after {:?}: {:?} does not reparse: {:?}", doc, done, s, e)) };
+                let cmp = if st == 'c' { root } else { m };
+                let back = if st == 'c' { back } else { xot.document_element(back).ok()? };
+                if !xot.deep_equal(cmp, back) { return Some(format!("{} after {:?}: {:?} reparses to a different tree", doc, done, s)); }
+            }
+            _ => return None,
+        }
+    }
+    None
 }
 
 // (C09) scope queries against nearest-declaration-wins, computed independently from the declarations on the path
